@@ -19,6 +19,49 @@ CLAIMED = {
                   "profiles on boundary spellings in all notations plus malformed and random strings; the extracted LitSpec judges every answer.",
              design="8/C17", note=NOTE + "Modelled, not verified: u32::from_str_radix, str::parse::<i64>, str::trim, to_lowercase on ASCII.",
              technique="Coq proof over a Gallina model + differential correspondence against the Rust code"),
+
+ "C02": dict(text="Liveness: Coq theorems over the model of LivenessPass prove, for ANY graph (loops, irreducible flow, recursion, many returns and call sites), "
+                  "that whenever the pass returns its live sets are closed under the documented equations, are below every closed assignment (least "
+                  "solution), that along every path a register read at the end and not overwritten on the way is live at the start, that returns "
+                  "cover what callers read, and that 'unused value' is reported only on a destination not live out. Tied to analysis/liveness.rs by "
+                  "comparing the live/udef sets of every node after the pass on generated programs; an independent Kleene iteration in the checker "
+                  "recomputes the least solution from the implementation's own graph and reports the program on any difference.",
+             design="8/C02", note=NOTE + "Hypothesis wf_live (function ids resolve, returns have no successors) is what C03/C11 establish for pipeline graphs. Non-termination of the pass is C06's business (OutOfFuel is excluded by the theorem's premise).",
+             technique="Coq proof (fixed-point/least-solution argument) + differential correspondence"),
+ "C03": dict(text="CFG: Coq theorems prove for every program and every exit choice that after every pipeline stage nexts/prevs are exact inverses, "
+                  "that every edge of the finished graph is a fall-through, a jump to the written label or a return merge, that returns and exit "
+                  "ecalls have no successors, and that 'unreachable code' is reported only on nodes without predecessors. Tied to graph.rs/"
+                  "directions.rs/dead_code.rs/ecall_terminate.rs/function_annotations.rs by comparing the graph after each stage; the checker also "
+                  "verifies on the implementation's graph that every static control transfer is an edge. The dynamic clause (executions) is "
+                  "covered only through these static facts.",
+             design="8/C03", note=NOTE + "Not proved: the statement over concrete RV32IM executions (no machine semantics in the model yet).",
+             technique="Coq proof (graph invariants by induction over the passes) + differential correspondence"),
+ "C07": dict(text="Lines: Coq theorems prove that lexing is a homomorphism over blocks of complete lines (so editing one line never changes the tokens "
+                  "of another), that parsing any single file terminates without panic, and that, unless the unsupported .macro is used, every "
+                  "significant token and every lexical error is inside the range of a produced node or on a line with a reported parse error "
+                  "(nothing is dropped silently). Tied to lexer.rs/parsing.rs by comparing items, nodes and errors; the checker re-does the token "
+                  "accounting and a delete-one-malformed-line differential on the implementation alone.",
+             design="8/C07", note=NOTE + "The delete-a-line containment at parser level is checked differentially, proved only at lexer level.",
+             technique="Coq proof (lexer/parser invariants) + differential correspondence"),
+ "C09": dict(text="Locations: Coq theorems prove for every newline-terminated text, both profiles, that lexing succeeds and every token's line/column "
+                  "are those of its raw offset, the range lies inside the text on one line and covers exactly the token's spelling, and that tokens "
+                  "are ordered and disjoint. Tied to lexer.rs item by item; the checker additionally checks every range printed by the parser and by "
+                  "the whole pipeline (nodes, operands, parse errors, diagnostics; LF, CRLF, leading blank lines, includes) against the file text.",
+             design="8/C09", note=NOTE + "Node/diagnostic ranges are tied by correspondence and checked by the oracle, proved only at token level.",
+             technique="Coq proof (lexer state invariant) + differential correspondence"),
+ "C12": dict(text="Fixed point: Coq theorems prove that the value analysis result satisfies its equations over all predecessors (or was a no-op), that "
+                  "value analysis and liveness never touch edges, nodes or functions, that ecall termination is idempotent, that the live sets satisfy "
+                  "the exact equations and are reproduced by a re-run, and that the lints ignore u_def. Tied to available.rs/liveness.rs/"
+                  "ecall_terminate.rs by stage dumps; the checker applies random sequences of extra pass runs to the implementation's finished graph "
+                  "and requires facts, edges and diagnostics to stay identical. The sweep bound is NOT proved (it is false: see C06 known findings).",
+             design="8/C12", note=NOTE + "Termination/sweep bounds are excluded (known findings under C06).",
+             technique="Coq proof (fixed-point equations, frame lemmas) + differential correspondence"),
+ "C16": dict(text="CFG errors: Coq theorem proves for every program parsed from any include tree that when the analysis stops, the error is one of four "
+                  "specific kinds, is about an occurrence of the named label/function in the parsed nodes, and is located in one of the user's files "
+                  "(never the nil file, never 'unexpected error'); and that otherwise all eleven lints run. Tied to graph.rs/directions.rs/"
+                  "function_annotations.rs/cfg_error.rs by comparing error kinds, payloads and locations.",
+             design="8/C16", note=NOTE + "Relies on the fix commit that introduced the two specific error kinds.",
+             technique="Coq proof (case analysis of the error paths, provenance invariant of the value analysis) + differential correspondence"),
 }
 ALL = ["C%02d" % i for i in range(1, 20)]
 checks = []
